@@ -195,7 +195,7 @@ def run(ctx: Ctx) -> int:
         "float dimension sampled by 8 embeddings of the integer lattice (steps 1, 1.0, 1/2, 1/10, 1/3, 1e3, 1e-3, 0.1+37.3), not enumerated",
         "identifier validity is modelled by a fixed list of invalid spellings (\"3x\", \"a-b\", \"x y\", \"\", a trailing or embedded line feed, a trailing space or tab; for regions also \"dsp\\n\", \"r \"); all other names match [A-Za-z_][A-Za-z0-9_]*",
         "well-formed documents have non-negative rectangle centres (the reader refuses negative numbers), flippable modules that are "
-        "single-trunk orthogons, hard rectangles without region, terminals without rectangles: the format rules that delimit the quantifier",
+        "single-trunk orthogons, hard (and terminal) rectangles without region: the format rules that delimit the quantifier; a terminal with rectangles has their area and centroid, one without has area zero",
         "wire length is judged against an interval (integer square roots at resolution 1/128 lattice unit, about 0.03 units per pin), "
         "observed value rounded to 0.01 unit; a net with a centre-less member has no defined length and is not judged",
         "rectangle lists are compared as multisets; a well-formed document that is refused is reported (clause `loads`): the statement "
